@@ -102,10 +102,10 @@ PARSER_NOTE = ("Trusted: Lean kernel; model is a hand port of parser.go validate
 CLAIMED = {
     'C01': {
         'text': "Proved in Lean for every byte string, decoder satisfying DecOK and classifier: the parser model's nodes tile the input "
-                "(c01_parse_tiling, c01_spans_chain, restore discipline lemmas); the model is tied to parser.go by per-run differential "
+                "(c01_parse_tiling, c01_spans_chain, restore discipline lemmas) and, end to end over parse + bindTypes + bindInputs + renderSQL, the SQL sent is the in-order concatenation of the same spans with each expression span replaced by its expansion and each bypass span copied verbatim (c01_end_to_end); a query without expressions is sent byte for byte (c01_no_expression_unchanged); the model is tied to parser.go by per-run differential "
                 "correspondence (L1: nodes; L2: SQL at the driver, bypass chunks verbatim and in order). Proof is the right level because the property "
                 "quantifies over all byte strings and the defect class (a helper that consumes without restoring) is invisible to sampled tests.",
-        'note': PARSER_NOTE + "; the expansion side (render) is covered by the L2 model correspondence, its theorems are registered under C03-C05",
+        'note': PARSER_NOTE + "; what each expansion contains is the subject of C03-C05",
         'technique': 'Lean 4 proof over executable parser model (invariants, restore discipline) + differential correspondence',
         'design_ref': 'DESIGN.md section 5 C01, Appendix A',
     },
@@ -164,12 +164,15 @@ CLAIMED.update({
 
 CLAIMED['C18'] = {
     'text': "Partial. Proved in Lean: the parser model terminates on every byte string (no loop exhausts its fuel: c18_parse_no_fuel and the scanner-loop totality lemmas), GetAll's row "
-            "loop terminates, every reachable Iterator state is well-formed. Observed, not proved: no panic / fatal error / hang on a zoo of ~130 Go values (every kind, nil and typed-nil "
+            "loop terminates, every reachable Iterator state is well-formed; Prepare never reaches a panic class, an internal error or fuel exhaustion (bindTypes_no_panic, getStructFields_no_fuel); "
+            "Query on a prepared statement with argument trees of the shape their types promise (ValWF: what Go's type system guarantees, checked by the driver on every generated input) never reaches a "
+            "panic class and fails only with one of 20 listed argument-error classes (bindInputs_no_panic, bindInputs_error_classes_args); field paths stay inside the struct (fieldByIndex_no_panic, "
+            "locateTarget_no_oob). The panic classes of the model are the reflect panics the code could reach (field of non-struct, index out of range, nil dereference). Observed, not proved: no panic / fatal error / hang on a zoo of ~130 Go values (every kind, nil and typed-nil "
             "values, pointers to nil maps, nil embedded struct pointers, recursive embedded types, unexported fields, ...) in every argument position of Prepare, Query, Get, GetAll, "
             "Iterator.Get, on odd result columns and on random byte strings as queries; crashes seen by any other layer are attributed here. The six panics of the pinned tree were repaired (known_findings.json).",
-    'note': "Trusted: Lean kernel for the termination theorems; the panic-freedom half rests on the sampled zoo (recover + 20 s watchdog + process exit code), because the panic conditions of "
-            "reflect primitives are not part of the model (DESIGN section 10)",
-    'technique': 'Lean 4 termination/totality proofs over the models + exhaustive-by-position value-zoo sweep under recover/watchdog',
+    'note': "Trusted: Lean kernel for the termination and no-panic theorems; the model's panic classes stand for the panic conditions of the reflect primitives it uses, other runtime panics "
+            "(nil map writes, unrecovered driver panics, stack overflow) rest on the sampled zoo (recover + 20 s watchdog + process exit code)",
+    'technique': 'Lean 4 termination/totality/no-panic-class proofs over the models + exhaustive-by-position value-zoo sweep under recover/watchdog',
     'design_ref': 'DESIGN.md section 5 C18',
 }
 
@@ -215,14 +218,14 @@ CLAIMED.update({
             'note': BIND_NOTE + "; O2 (provider order dependence outside the one-provider domain) is reproduced literally", 'technique': 'Lean 4 proof (bindCols/insertRows specifications) + correspondence + SQLite twin-table comparison', 'design_ref': 'DESIGN.md section 5 C04'},
     'C05': {'text': "Proved in Lean: aliases are 0..n-1 in textual order and outputs[k] is the destination of alias k; rows are returned iff there is a non-empty output expression; end to end from any byte string through the parser model no generated column is a wildcard. Per-form column lists (sorted tags, table prefix, verbatim explicit columns) are compared with the implementation's SQL.",
             'note': BIND_NOTE, 'technique': 'Lean 4 proof (output counter invariant; parser-to-binder wildcard theorem) + correspondence', 'design_ref': 'DESIGN.md section 5 C05'},
-    'C07': {'text': "Partial. The executable bindTypes of the model is the specification of well-typedness: Prepare must accept exactly what it accepts (a disagreement is a concrete failing input) on generated statements x sample sets (missing, extra, duplicated, same-named, pointer, anonymous, nil, rejected struct shapes). Proved in Lean: after a successful Prepare no argument list can produce an internal error, insert columns never carry slice locators, locators have the right kinds. The declarative WellTyped iff of DESIGN section 5 is not proved.",
-            'note': BIND_NOTE, 'technique': 'executable-specification correspondence + Lean 4 totality/no-internal-error proofs', 'design_ref': 'DESIGN.md section 5 C07'},
-    'C08': {'text': "Partial. Proved in Lean: the exact acceptance condition of ValidateInputs, its independence of argument order, and that an unusable argument makes bindInputs fail with an argument error (never an internal one). Checked on the implementation: Query accepts exactly the argument lists the model accepts over all forms (T, *T, []T, []*T, *[]T, **T, anonymous, nil variants, foreign same-named types alone and in addition) and a rejected Query produces no driver event.",
-            'note': BIND_NOTE, 'technique': 'Lean 4 proof (validateInputs_ok_iff, permutation) + correspondence with empty-driver-log check', 'design_ref': 'DESIGN.md section 5 C08'},
+    'C07': {'text': "Proved in Lean: Prepare (bindTypes of the model) accepts exactly the declaratively WellTyped (nodes, samples) - bindTypes_ok_iff_wellTyped, with generateArgInfo_ok_iff (samples), getStructFields_ok_iff_structOK (struct validity incl. embedding cycles), bindSeg_ok_iff (all seven node kinds) and the informal reading prepare_ok_reading (every named type has exactly one sample, every sample is used); after a successful Prepare no argument list can produce an internal error, locators have the right kinds. The model is tied to the code on generated statements x sample sets (missing, extra, duplicated, same-named, pointer, anonymous, nil, rejected struct shapes): a disagreement on accept/reject is a concrete failing input. Partial only in that the field list of a struct (getStructFields) is the model's function, characterised for success but not restated declaratively.",
+            'note': BIND_NOTE, 'technique': 'Lean 4 proof (acceptance iff declarative WellTyped; no internal error) + accept/reject correspondence', 'design_ref': 'DESIGN.md section 5 C07'},
+    'C08': {'text': "Proved in Lean: Query (bindInputs of the model) accepts exactly the ArgsOK argument lists (bindInputs_ok_iff_argsOK: every argument valid, of a distinct type, read by some input; every input located - locateParams_ok_iff_located gives the exact parameters), a rejected list yields no primed query (rejected_args_reach_nothing), the acceptance condition of ValidateInputs and its independence of argument order, and that an unusable argument fails with an argument error (never an internal one). Partial only in that ArgsOK inherits the order-directed clash condition of ValidateInputs. Checked on the implementation: Query accepts exactly the argument lists the model accepts over all forms (T, *T, []T, []*T, *[]T, **T, anonymous, nil variants, foreign same-named types alone and in addition) and a rejected Query produces no driver event.",
+            'note': BIND_NOTE, 'technique': 'Lean 4 proof (acceptance iff ArgsOK, validateInputs_ok_iff, permutation) + correspondence with empty-driver-log check', 'design_ref': 'DESIGN.md section 5 C08'},
     'C16': {'text': "Partial (data races not modelled). Proved in Lean: for a prepared statement the result of bindInputs (SQL pieces, arguments, outputs) is invariant under permutation of the arguments (the unrestricted statement is false for hand-built expressions: kernel-checked counterexamples); bindInputs is a pure function of (typed expressions, arguments). Checked on the implementation: permuted samples/arguments, a separately prepared Statement, a Query built before another Query of the same Statement, and (thorough) concurrent runs all produce byte-identical SQL and arguments.",
             'note': BIND_NOTE + "; freedom from data races is not expressible in the model", 'technique': 'Lean 4 proof (permutation invariance) + repeated/interleaved/concurrent run comparison', 'design_ref': 'DESIGN.md section 5 C16'},
-    'C17': {'text': "Partial (SQLite observed, not modelled). Proved in Lean: the store half (what an insert piece writes reads back column by column; unwritten columns are NULL) which composes with C04's cell specification and C06's scan theorems. Observed against real SQLite: every generated insert/select/update/delete is accepted, tables written through SQLair equal twin tables written with hand-written SQL, rows read back equal the rows inserted. Known finding: an insert whose every column is omitted is rejected by the engine.",
-            'note': "Trusted: Lean kernel for the store/bind/scan theorems; go-sqlite3 as the engine; the composition of the three halves is stated, not mechanised", 'technique': 'Lean 4 proofs of store/bind/scan halves + real-engine twin-table comparison', 'design_ref': 'DESIGN.md section 5 C17'},
+    'C17': {'text': "Partial (SQLite observed, not modelled). Proved in Lean: the composition c17_roundtrip_prepared_partial - INSERT (*) VALUES ($T.*) prepared, bound with T / []T / []*T values, executed by the engine model, read by SELECT &T.* and scanned into a fresh T gives back every kept member and zero / nil / Scan(NULL) for members omitted by omitempty (assumptions: the toy column store stands for the engine, identity conversion, Get succeeds on distinct destinations) - built from the store half (store_roundtrip, unwritten_column_is_null), C04's cell specification and C06's scan theorems. Observed against real SQLite: every generated insert/select/update/delete is accepted, tables written through SQLair equal twin tables written with hand-written SQL, rows read back equal the rows inserted. Known finding: an insert whose every column is omitted is rejected by the engine.",
+            'note': "Trusted: Lean kernel for the store/bind/scan theorems; go-sqlite3 as the engine; the engine is a toy column store in the theorem and real SQLite in the observation", 'technique': 'Lean 4 proofs of store/bind/scan halves + real-engine twin-table comparison', 'design_ref': 'DESIGN.md section 5 C17'},
 })
 
 NOT_CLAIMED_REASON = {}
